@@ -149,15 +149,17 @@ func buildSidecarOutboundTLSFilterChainOpts(node *model.Proxy, push *model.PushC
 					// Only set CIDR match if the listener is bound to an IP.
 					// If its bound to a unix domain socket, then ignore the CIDR matches
 					// Unix domain socket bound ports have Port value set to 0
+					// The override is per match: it must not leak into later matches (or other virtual services).
+					matchCIDRs := destinationCIDRs
 					if len(match.DestinationSubnets) > 0 && listenPort.Port > 0 {
-						destinationCIDRs = match.DestinationSubnets
+						matchCIDRs = match.DestinationSubnets
 					}
 					matchHash := hashRuntimeTLSMatchPredicates(match)
 					if !matchHasBeenHandled.Contains(matchHash) {
 						out = append(out, &filterChainOpts{
 							metadata:         util.BuildConfigInfoMetadata(cfg.Meta),
 							sniHosts:         match.SniHosts,
-							destinationCIDRs: destinationCIDRs,
+							destinationCIDRs: matchCIDRs,
 							networkFilters:   lb.buildOutboundNetworkFilters(tls.Route, listenPort, cfg.Meta, false),
 						})
 						hasTLSMatch = true
